@@ -381,6 +381,30 @@ def body(chk, db, cfgname):
     # ================================================================== R5
     r5 = chk.rule("C07-R5", "CreationOperator/AnnihilationOperator/QuadraticOperator::prepare build their parts and block maps identically", "F4 sibling agreement", 3)
     sigs = {}
+    # the meaning of isCorrect() that the rule below relies on: "this is a block", i.e. true for 0, 1, 2, ... and false for
+    # ERROR_BLOCK_NUMBER (-1, the only negative value in use)
+    ic = db.fn("Pomerol::BlockNumber::isCorrect", nparams=0)
+    with r5.guard("Pomerol::BlockNumber::isCorrect", ic.loc(), cfgname):
+        from pv.paths import return_cases
+        cases_ = return_cases(ic, thr.ctx(ic))
+        if not cases_ or len(cases_) != 1:
+            raise AnalysisBroken("BlockNumber::isCorrect: not a single returned expression")
+        k_ = cases_[0]["key"]
+        num_ = ("field", "Pomerol::BlockNumber::number", THIS)
+        tab_ = None
+        if k_[0] == "op" and len(k_) == 4 and k_[1] in ("<", "<=", ">", ">=", "==", "!=") and num_ in (k_[2], k_[3]):
+            o_ = k_[3] if k_[2] == num_ else k_[2]
+            c_ = o_[1] if o_[0] == "lit" else (-o_[2][1] if o_[0] == "un" and o_[1] == "-" and o_[2][0] == "lit" else (-1 if o_ == ("global", "Pomerol::ERROR_BLOCK_NUMBER") or deconv(o_) == ("global", "Pomerol::ERROR_BLOCK_NUMBER") else None))
+            if c_ is not None:
+                import operator as _op
+                fn_ = {"<": _op.lt, "<=": _op.le, ">": _op.gt, ">=": _op.ge, "==": _op.eq, "!=": _op.ne}[k_[1]]
+                tab_ = [bool(fn_(v, c_) if k_[2] == num_ else fn_(c_, v)) for v in (-1, 0, 1, 5)]
+        if tab_ is None:
+            raise AnalysisBroken("BlockNumber::isCorrect: returned expression is not a comparison of `number` with a constant")
+        if tab_ == [False, True, True, True]:
+            r5.ok("Pomerol::BlockNumber::isCorrect", ic.loc(), "true exactly for the block numbers 0, 1, 2, ...; false for ERROR_BLOCK_NUMBER", cfgname)
+        else:
+            r5.bad("Pomerol::BlockNumber::isCorrect", ic.loc(), "isCorrect() is %s for the numbers (-1, 0, 1, 5): it must reject ERROR_BLOCK_NUMBER (-1) and accept every block, block 0 included -- every `image exists` test in the library goes through it" % tab_, cfgname)
     for cls in ("Creation", "Annihilation", "Quadratic"):
         g = db.fn("Pomerol::%sOperator::prepare" % cls, nparams=0)
         sig, problems = prepare_signature(g, thr, cls)
